@@ -29,4 +29,8 @@ def subchecks(tier):
     prof = common.full_profile("C03", max_nodes=4, horizon=(5.0, 16.0))
     prof.weights.update({"self_loops": 0.6, "jockeying": 0.6, "reneging": 0.4})
     return [system_subcheck("lattice", prof, lambda spec: [Journey()], nontrivial, classes=classes,
-                            n={"quick": 9600, "thorough": 50000}, rule="full lattice; observed journey vs record chain")]
+                            n={"quick": 9600, "thorough": 50000}, rule="full lattice; observed journey vs record chain"),
+            system_subcheck("preempt_combo", common.combo_profile("C03", more_weights={"prio_reroute": 0.8}), lambda spec: [Journey()],
+                            lambda a, spec, res: a.get("rec_interrupted_service", 0) >= 2 and a.get("ev_shift_change", 0) >= 2, classes=classes,
+                            n={"quick": 3600, "thorough": 30000},
+                            rule="pre-emptive priorities (often 're-route') and pre-emptive schedules at the same nodes on grid times: a customer interrupted twice within one instant; same monitor")]
